@@ -30,21 +30,33 @@ REL = 1e-3            # relative distance to the threshold below which a decisio
 # ------------------------------------------------------------------------------------------------
 # oracle: the two outlier rules, written from their definitions (float64)
 # ------------------------------------------------------------------------------------------------
+# The rules are scale-free (a z-score does not depend on the unit of the statistic): no absolute constant appears below.  A scale counts
+# as zero only when it IS zero (all deviations on that side vanish); a non-zero scale below NEGL times the largest deviation (far below
+# anything float32 data can produce short of underflow) is the only regime in which a decision is not demanded either way.
+NEGL = 1e-30
+
+
+def _ulp32(x):
+    """one float32 unit in the last place of the largest entry: the implementation holds the location in float32, so a deviation (and with
+    it a z-score, after division by the scale) is only known to that accuracy -- negligible unless the spread is ~1e-6 of the values"""
+    return float(np.spacing(np.float32(np.abs(x).max())))
+
+
 def o_z_iqr(x):
     x = np.asarray(x, dtype=np.float32).astype(np.float64)
     loc = np.median(x)
     q1, q3 = np.percentile(x, [25, 75])
     scale = (q3 - q1) / NORM_IQR
-    fragile = 0 < abs(scale) < 1e-6
-    if abs(scale) <= 1e-8:
+    fragile = 0 < abs(scale) <= NEGL * float(np.abs(x - loc).max())
+    if scale == 0:
         scale = 1.0
-    return (x - loc) / scale, fragile
+    return (x - loc) / scale, fragile, _ulp32(x) / abs(scale)
 
 
 def _side(devs):
     m = np.median(devs) / NORM_MAD
-    fragile = 0 < abs(m) < 1e-6
-    if abs(m) <= 1e-8:
+    fragile = 0 < abs(m) <= NEGL * float(np.max(devs))
+    if m == 0:                                      # zero MAD means exactly zero: fall back to the mean absolute deviation
         m = np.mean(devs) / NORM_AAD
     return m, fragile
 
@@ -56,20 +68,59 @@ def o_z_doublemad(x):
     ml, f1 = _side(dev[x <= loc])
     mr, f2 = _side(dev[x >= loc])
     scale = np.where(x < loc, ml, mr)
-    fragile = f1 or f2 or bool(np.any((np.abs(scale) > 0) & (np.abs(scale) < 1e-6)))
-    scale = np.where(np.abs(scale) <= 1e-8, 1.0, scale)
-    return (x - loc) / scale, fragile
+    fragile = f1 or f2 or bool(np.any((np.abs(scale) > 0) & (np.abs(scale) <= NEGL * float(dev.max()))))
+    scale = np.where(scale == 0, 1.0, scale)
+    return (x - loc) / scale, fragile, _ulp32(x) / np.abs(scale)
 
 
-def _decide(z, thr):
-    """(surely flagged, possibly flagged)"""
+def model_fragile(method, vectors, radius=5):
+    """Model/C16_MaskAlg.v executes the estimators in exact rationals with the library's own zero tests (a MAD is replaced when it is
+    exactly zero, a scale counts as zero at or below float32's smallest normal number times the largest deviation).  The only vectors not
+    SENT TO THE MODEL are those with a non-zero estimator scale at or below NEGL times the largest deviation, where float rounding of the
+    scale decides the branch; the oracle window is the same."""
+    for v in vectors:
+        x = np.asarray(v, dtype=np.float32).astype(np.float64)
+        if method == "mad":
+            loc = np.median(x)
+            dev = np.abs(x - loc)
+            top = float(dev.max()) if dev.size else 0.0
+            for side in (dev[x <= loc], dev[x >= loc]):
+                for s_ in (np.median(side) / NORM_MAD, np.mean(side) / NORM_AAD):
+                    if 0 < abs(s_) <= NEGL * top:
+                        return True
+        else:
+            n = len(x)
+            for lag in list(range(-radius, 0)) + list(range(1, radius + 1)):
+                d = np.asarray(x - x[np.clip(np.arange(n) + lag, 0, n - 1)], dtype=np.float32).astype(np.float64)
+                q1, q3 = np.percentile(d, [25, 75])
+                s_ = (q3 - q1) / NORM_IQR
+                if 0 < abs(s_) <= NEGL * float(np.abs(d - np.median(d)).max()):
+                    return True
+    return False
+
+
+def iqrm_unit_dependent(x, radius=5):
+    """is the IQR of some lagged difference exactly zero while the difference is not constant?  The implementation (and the definition
+    above) then scores the RAW deviation (scale 1), which depends on the unit of the statistic."""
+    xf = np.asarray(x, dtype=np.float32).astype(np.float64)
+    n = len(xf)
+    for lag in list(range(-radius, 0)) + list(range(1, radius + 1)):
+        d = np.asarray(xf - xf[np.clip(np.arange(n) + lag, 0, n - 1)], dtype=np.float32).astype(np.float64)
+        q1, q3 = np.percentile(d, [25, 75])
+        if q3 == q1 and np.any(d != np.median(d)):
+            return True
+    return False
+
+
+def _decide(z, thr, dz=0.0):
+    """(surely flagged, possibly flagged); dz: accuracy of z"""
     a = np.abs(z)
-    return a > thr * (1 + REL), a > thr * (1 - REL)
+    return a > thr * (1 + REL) + dz, a > thr * (1 - REL) - dz
 
 
 def o_mad(x, thr):
-    z, fr = o_z_doublemad(x)
-    lo, hi = _decide(z, thr)
+    z, fr, dz = o_z_doublemad(x)
+    lo, hi = _decide(z, thr, dz)
     return lo, hi, fr
 
 
@@ -82,8 +133,8 @@ def o_iqrm(x, thr, radius=5):
     fr = False
     for lag in list(range(-radius, 0)) + list(range(1, radius + 1)):
         nb = np.clip(np.arange(n) + lag, 0, n - 1)
-        z, f = o_z_iqr(xf - xf[nb])
-        a, b = _decide(z, thr)
+        z, f, dz = o_z_iqr(xf - xf[nb])
+        a, b = _decide(z, thr, dz)
         lo |= a
         hi |= b
         fr = fr or f
@@ -111,7 +162,7 @@ def o_user(fch1, foff, nchans, ranges):
     tol = Fraction(abs(foff)) / 1000 + Fraction(1, 4096)
     exact32 = all(float(np.float32(float(v))) == float(v) for v in f)
     for lo, hi in ranges:
-        lo_, hi_ = Fraction(lo), Fraction(hi)
+        lo_, hi_ = (Fraction(float(e)) if np.isfinite(float(e)) else float(e) for e in (lo, hi))     # +-inf: a half line
         for c in range(nchans):
             if lo_ <= f[c] <= hi_:
                 m[c] = True
@@ -219,13 +270,24 @@ def read_all(path):
     return g.header, g.read_block(0, g.header.nsamples).data        # (nchans, nsamps)
 
 
-def check_cleaned(R, key_prefix, out_hdr, out, data, mask, mv, nbits, case):
+def check_axes(R, key_prefix, out_hdr, in_hdr, case):
+    """the cleaned file labels its channels and samples as the input does (otherwise the masked channels are other frequencies)"""
+    for name in ("fch1", "foff", "tsamp", "tstart"):
+        a, b = float(getattr(in_hdr, name)), float(getattr(out_hdr, name))
+        if abs(a - b) > 1e-9 * max(1.0, abs(a)):
+            R.fail(key_prefix + "-header", f"header field '{name}' of the cleaned file differs from the input (start = 0)",
+                   dict({k: v for k, v in case.items() if k != "data"}, field=name, input=a, output=b))
+
+
+def check_cleaned(R, key_prefix, out_hdr, out, data, mask, mv, nbits, case, in_hdr=None):
     """the cleaned file: masked channels hold the (cast) mask value at every sample, the rest is bit-identical"""
     nsamps, nchans = data.shape
     if out_hdr.nsamples != nsamps or out_hdr.nchans != nchans or out_hdr.nbits != nbits or out.shape != (nchans, nsamps):
         R.fail(key_prefix + "-length", "cleaned file has a different shape/depth than the input",
                dict(case, got_shape=list(out.shape), nsamples=int(out_hdr.nsamples), nbits=int(out_hdr.nbits)))
         return
+    if in_hdr is not None:
+        check_axes(R, key_prefix, out_hdr, in_hdr, case)
     ref = data.T
     um = ~mask
     if um.any() and not np.array_equal(out[um].astype(np.float64), ref[um].astype(np.float64)):
@@ -254,7 +316,11 @@ def run(R: vlib.Run):
               "(none, empty, overlapping, outside the band, edges on channel centres, reversed) x custom functions (7 kinds) x mask "
               "values (default, explicit); apply_channel_mask with random/all/none masks; the kernel on random blocks incl. 0 samples and "
               "1 channel; the outlier rules on random vectors with planted outliers, all-equal, two-valued, length 1..40, several dtypes and "
-              "memory layouts; random histories of 1..6 operations; HDF5 round trips with non-default headers and second generation. "
+              "memory layouts, every vector again in units of 2**30, 2**14, 2**-30 (the rules are scale-free), half-flat vectors (zero one-sided MAD), "
+              "thresholds 1e-3 .. inf of several numeric types; random histories of 1..6 operations, further ones that change the threshold, start from a "
+              "loaded mask with preset channels and use an integer-valued custom function; range end points +-inf / integers; 32-bit files in a unit of "
+              "2**-20 and with negative, fractional, -0.0, NaN, inf, subnormal samples compared bit for bit; the frequency/time axes of the cleaned "
+              "file; HDF5 round trips with every scalar header field non-default, second generation, default file name. "
               "distinct = distinct (kind, parameters) tuples; non-trivial = at least one masked and one unmasked channel (or a non-empty vector)")
     R.trusted += ["Coq 8.16.1 kernel + vm_compute",
                   "tools/py2coq translator (kernels) and plug-in gen_c16.py (rfi.py/base.py statement forms -> Gallina); numba semantics of the kernel loop",
@@ -265,7 +331,16 @@ def run(R: vlib.Run):
                   "correspondence harness tools/harness/props/c16.py"]
     R.assume += ["the custom function is pure (does not mutate the mask it is given) and returns one value per channel",
                  "mask values are representable at the depth of the file (0 <= trunc(v) < 2^nbits for 1..8 bit)",
-                 "decisions within 0.1% of the threshold and estimator scales in (0, 1e-6) are not demanded either way",
+                 "decisions within 0.1% of the threshold are not demanded either way (nor those with a non-zero estimator scale below 1e-30 of the largest deviation)",
+                 "channel statistics are finite: one NaN/inf sample in a 32-bit file makes that channel's variance NaN, the medians of the outlier rules "
+                 "are then NaN and NO channel is flagged by either method (not generated; non-finite samples only pass through apply_channel_mask)",
+                 "vectors handed to double_mad_mask / iqrm_mask are floating point or signed integers: unsigned integer input wraps modulo 2**n in the "
+                 "lagged differences of iqrm_mask (clean_rfi always passes float32)",
+                 "the default mask value at 1..8 bit is the median of the unmasked channel means converted like an explicit value (float32, then truncation)",
+                 "when the inter-quartile range of a lagged difference is exactly zero (two-valued or mostly tied statistics) iqrm_mask scores the raw "
+                 "deviation (scale 1), which depends on the unit of the statistic: such vectors are demanded in their own unit only, not rescaled",
+                 "z-scores are demanded to the accuracy of one float32 ulp of the largest value divided by the scale (the location is held in float32)",
+                 "correspondence only: inputs with a non-zero estimator scale at or below 1e-30 of the largest deviation are not sent to the Coq estimators (the model is exact, float rounding of the scale decides the branch there)",
                  "RFIMask round trip: the header is compared field by field except stream_info (file layout of the source reader)",
                  "file-level cases use start=0, nsamps=None (sub-ranges are C01/C06 territory)"]
     R.prove("Props/C16.v")
@@ -280,7 +355,7 @@ def run(R: vlib.Run):
         _rule_cases(R, rng, rfi, quick)
         _file_cases(R, rng, T, FilReader, quick, corr_file, corr_packed)
         _clean_cases(R, rng, T, FilReader, rfi, quick, corr_clean)
-        _history_cases(R, rng, rfi, Header, quick, corr_hist)
+        _history_cases(R, rng, rfi, Header, quick, corr_hist, T)
         _h5_cases(R, rng, T, rfi, Header, FilReader, SkyCoord, Angle, quick)
         _correspond(R, corr_kernel, corr_file, corr_packed, corr_clean, corr_hist)
     finally:
@@ -341,6 +416,19 @@ def _rule_cases(R, rng, rfi, quick):
             v = 1000.0 + nprng.normal(0, 1e-3, n)
             v[rng.randrange(n)] += rng.choice([-1, 1]) * rng.uniform(8e-3, 9e-3)
             vecs.append(("pedestal", v))
+            # more than half of the values tied at the median, the rest on one side, 1 or 2 outliers on the flat side: the one-sided MAD
+            # of the flat side is exactly zero, so the mean absolute deviation OF THAT SIDE is the scale (zero-MAD fallback of the double MAD).
+            # A small outlier (0.8 spreads of the other side) is flagged with the right scale and not with the other side's.
+            for sign in (1.0, -1.0):
+                nout = rng.choice([1, 2])
+                sig = rng.choice([1.0, 0.02])
+                c = rng.choice([0.0, 10.0, -3.0])
+                nlow = n - (n // 2 + 1) - nout
+                v = np.full(n, c)
+                v[:nlow] = c - np.abs(nprng.normal(0, sig, nlow)) - 0.01 * sig
+                v[nlow:nlow + nout] = [c + sig * rng.choice([0.8, 50.0]) * (1 + 0.37 * t) for t in range(nout)]
+                nprng.shuffle(v)
+                vecs.append(("halfflat-high" if sign > 0 else "halfflat-low", c + sign * (v - c)))
         vecs.append(("allequal", np.full(n, rng.choice([0.0, 1.0, -7.5, 1e4]))))
         vecs.append(("twovalued", np.where(np.arange(n) % 2 == 0, 1.0, 3.0)))
         vecs.append(("ints", nprng.integers(-20, 20, n).astype(np.float64)))
@@ -380,6 +468,45 @@ def _rule_cases(R, rng, rfi, quick):
                             R.fail(key, f"{meth} rule differs from its definition" + ("" if contiguous else " for a non-contiguous view of the same values"),
                                    {"method": meth, "layout": lname, "threshold": thr, "radius": radius, "vector": v32.tolist(),
                                     "got": np.where(got)[0].tolist(), "must_flag": np.where(lo)[0].tolist(), "may_flag": np.where(hi)[0].tolist()})
+    def one(meth, fn, orc, arr, v32, thr, key, regime, kind, extra):
+        """rule `fn` on `arr` against the band the definition gives for `v32` (the same vector up to an exact change of unit)"""
+        n = len(v32)
+        info = dict({"method": meth, "threshold": float(thr), "radius": 5, "vector": v32.tolist()}, **extra)
+        try:
+            got = np.asarray(fn(arr, thr)).astype(bool)
+        except Exception as e:  # noqa: BLE001
+            R.fail(f"{meth}-raises", f"{meth} rule raised {type(e).__name__} on a valid vector", dict(info, error=str(e)[:200]))
+            return
+        lo, hi, fr = orc(v32, float(thr))
+        R.case((meth, kind, n, regime, float(thr), str(sorted(extra.items())), tuple(v32.tolist())), nontrivial=n > 1, regime=regime)
+        if fr:
+            return
+        if not (got.shape == (n,) and not np.any(lo & ~got) and not np.any(got & ~hi)):
+            R.fail(key, f"{meth} rule differs from its definition ({regime})",
+                   dict(info, got=np.where(got)[0].tolist(), must_flag=np.where(lo)[0].tolist(), may_flag=np.where(hi)[0].tolist()))
+
+    rules = (("mad", rfi.double_mad_mask, o_mad), ("iqrm", rfi.iqrm_mask, o_iqrm))
+    # a z-score does not depend on the unit of the statistic: every vector again in units of 2**30, 2**14 and 2**-30 (exact in float32),
+    # against the band of the original (variances of a float32 file with samples of order 1e-4 are of order 1e-8)
+    for idx, (kind, v) in enumerate(vecs):
+        v32 = v.astype(np.float32)
+        thr = thrs[idx % (2 if quick else 3)]
+        for k in (-30, -14, 30):
+            w = v32 * np.float32(2.0) ** k
+            if not (np.all(np.isfinite(w)) and np.array_equal(w.astype(np.float64), v32.astype(np.float64) * 2.0 ** k)):
+                continue                                    # under/overflow: not an exact change of unit
+            for meth, fn, orc in rules:
+                if meth == "iqrm" and iqrm_unit_dependent(v32):
+                    continue                                # zero IQR: the raw deviation is scored, see R.assume
+                one(meth, fn, orc, w, v32, thr, f"{meth}-rescaled", "rule-rescaled", kind, {"unit": f"2**{k}", "layout": "f32"})
+    # thresholds far from the usual ones, and of other numeric types
+    for kind, v in vecs:
+        if kind not in ("normal", "planted1", "halfflat-high", "allequal") or len(v) not in (8, 13, 32):
+            continue
+        v32 = v.astype(np.float32)
+        for thr in (1e-3, 1e6, float("inf"), np.float32(2.5), 3, np.float64(4.5)):
+            for meth, fn, orc in rules:
+                one(meth, fn, orc, v32, v32, thr, f"{meth}-decision", "rule-threshold-range", kind, {"threshold_type": type(thr).__name__, "layout": "f32"})
     # the property quantifies over thresholds > 0; a non-positive one must be refused, not silently used
     for meth, fn in (("mad", rfi.double_mad_mask), ("iqrm", rfi.iqrm_mask)):
         for thr in (0, -1.0):
@@ -400,7 +527,8 @@ def _file_cases(R, rng, T, FilReader, quick, corr_file, corr_packed):
         ns = rng.randrange(9, 30)
         data, _ = synth(rng, nbits, nchans, ns, plant=False)
         p = T.path(".fil")
-        write_fil(p, data, nbits)
+        fch1, foff = rng.choice([(1500.0, -1.0), (1400.0, 0.5), (1510.0, -0.390625)])
+        write_fil(p, data, nbits, fch1=fch1, foff=foff, tsamp=rng.choice([0.001, 0.000064]), tstart=rng.choice([60000.0, 58543.25]))
         top = (1 << nbits) - 1
         if nbits == 32:
             mvs = [0, 2.5, -7.0, 1e5]
@@ -425,7 +553,7 @@ def _file_cases(R, rng, T, FilReader, quick, corr_file, corr_packed):
                     R.case(("acm", nbits, gulp, mname, mv), nontrivial=mb.any() and not mb.all(), regime=f"file-{nbits}bit",
                            sample={"op": "apply_channel_mask", "nbits": nbits, "gulp": gulp, "nsamps": ns, "masked": np.where(mb)[0].tolist(), "mask_value": mv}
                            if mname == "rand" and gulp == 3 and nbits == 2 else None)
-                    check_cleaned(R, "file", hdr, got, data, mb, mv, nbits, case)
+                    check_cleaned(R, "file", hdr, got, data, mb, mv, nbits, case, in_hdr=f.header)
                     if float(mv) == int(mv) and mname in ("rand", "all") and len(corr_file) < 60:
                         corr_file.append((data.ravel().astype(np.int64).tolist(), mb.astype(int).tolist(), int(mv), nchans, ns, gulp,
                                           got.T.ravel().astype(np.int64).tolist()))
@@ -438,10 +566,62 @@ def _file_cases(R, rng, T, FilReader, quick, corr_file, corr_packed):
                         corr_packed.append((nbits, order.startswith("b"), bi.tolist(), mb.astype(int).tolist(), int(mv), nchans, ns, bo.tolist()))
                     os.remove(out)
         os.remove(p)
+    _file_bits_cases(R, rng, nprng, T, FilReader, quick)
+
+
+SPECIAL_BITS = (0x80000000, 0x7FC00000, 0x7FC12345, 0xFFC00001, 0x7F800000, 0xFF800000, 0x00000001, 0x807FFFFF, 0x7F7FFFFF, 0xFF7FFFFF, 0x3F000000)
+
+
+def _file_bits_cases(R, rng, nprng, T, FilReader, quick):
+    """32-bit files whose samples are negative, fractional, -0.0, NaN (with payloads), +-inf, subnormal, +-max: 'bit-identical' is
+    compared on the bit patterns"""
+    for rep in range(1 if quick else 6):
+        nchans = rng.choice([4, 8, 12])
+        ns = rng.randrange(9, 30)
+        x = (nprng.normal(0, 100, (ns, nchans))).astype(np.float32)
+        k = max(len(SPECIAL_BITS), x.size // 5)
+        x.reshape(-1).view(np.uint32)[nprng.choice(x.size, k, replace=False)] = np.resize(np.asarray(SPECIAL_BITS, np.uint32), k)
+        p = T.path(".fil")
+        write_fil(p, x, 32)
+        back = np.ascontiguousarray(read_all(p)[1].T)
+        if not np.array_equal(back.view(np.uint32), x.view(np.uint32)):      # the synthesised input itself must carry the patterns
+            R.red.append("c16 harness: write_fil/read_block do not preserve the float32 bit patterns of the synthesised input")
+            os.remove(p)
+            continue
+        for gulp in gulps_for(ns):
+            mb = nprng.integers(0, 2, nchans).astype(bool)
+            mb[rng.randrange(nchans)] = False
+            mv = rng.choice([-2.5, 0.0, 1e-40, 3.0e38])
+            case = {"op": "apply_channel_mask", "nbits": 32, "nchans": nchans, "nsamps": ns, "gulp": gulp, "mask": mb.astype(int).tolist(), "mask_value": mv,
+                    "data_bits": x.view(np.uint32).tolist()}
+            out = T.path(".fil")
+            try:
+                FilReader(p).apply_channel_mask(mb, mv, outfile_name=out, gulp=gulp, quiet=True)
+                hdr, got = read_all(out)
+            except Exception as e:  # noqa: BLE001
+                R.fail("file-raises", f"apply_channel_mask raised {type(e).__name__}", dict(case, error=str(e)[:200]))
+                continue
+            R.case(("acm-bits", rep, gulp, mv, tuple(mb.tolist())), nontrivial=mb.any(), regime="file-32bit-patterns")
+            if got.shape != (nchans, ns) or got.dtype != np.float32:
+                R.fail("file-length", "cleaned file has a different shape/type than the input", dict(case, got_shape=list(got.shape), got_dtype=str(got.dtype)))
+            else:
+                gb = np.ascontiguousarray(got).view(np.uint32)
+                eb = np.ascontiguousarray(x.T).view(np.uint32).copy()
+                bad = (gb != eb) & ~mb[:, None]
+                if bad.any():
+                    c, s_ = (int(t) for t in np.argwhere(bad)[0])
+                    R.fail("file-unmasked-bits", "a sample of an unmasked channel is not bit-identical to the input",
+                           dict(case, channel=c, sample=s_, got_bits=int(gb[c, s_]), expected_bits=int(eb[c, s_])))
+                if mb.any() and not np.all(got[mb] == np.float32(mv)):
+                    R.fail("file-masked-value", "a sample of a masked channel is not the mask value (as float32)",
+                           dict(case, written_values=[float(t) for t in np.unique(got[mb])[:6]]))
+            os.remove(out)
+        os.remove(p)
 
 
 # ------------------------------------------------------------------------------------------------
 RANGE_KINDS = ("none", "empty", "inside", "overlap", "outside", "edges", "reversed", "whole")
+RANGE_KINDS_X = ("halfline", "intlists")        # oracle only (the model's ranges are finite rationals given as pairs)
 
 
 def make_ranges(rng, kind, fch1, foff, nchans):
@@ -473,7 +653,21 @@ def make_ranges(rng, kind, fch1, foff, nchans):
         return [(hi_f, lo_f)] if hi_f > lo_f else [(hi_f + 1, lo_f)]
     if kind == "whole":
         return [(lo_f - 1.0, hi_f + 1.0)]
+    if kind == "halfline":                      # "everything below / above f": an infinite end point
+        a = rng.randrange(nchans)
+        q = 0.25 * abs(foff)
+        return rng.choice([[(float("-inf"), f(a) + q)], [(f(a) - q, float("inf"))], [(float("-inf"), f(a) - q), (f(min(nchans - 1, a + 2)) + q, np.inf)],
+                           [(float("-inf"), float("inf"))]])
+    if kind == "intlists":                      # end points given as Python / NumPy integers, ranges as lists / arrays instead of tuples
+        a = rng.randrange(nchans - 1)
+        b = rng.randrange(a, nchans)
+        x, y = int(np.floor(min(f(a), f(b)))), int(np.ceil(max(f(a), f(b))))
+        return [[x, y], np.array([int(np.floor(lo_f)) - 3, int(np.floor(lo_f)) - 2]), [np.int64(y), np.int32(y + 1)]]
     raise ValueError(kind)
+
+
+def ranges_json(r):
+    return None if r is None else [[float(a), float(b)] for a, b in r]
 
 
 def _clean_cases(R, rng, T, FilReader, rfi, quick, corr):
@@ -481,14 +675,25 @@ def _clean_cases(R, rng, T, FilReader, rfi, quick, corr):
     combos = []
     for nbits in DEPTHS:
         for i, kind in enumerate(RANGE_KINDS):
-            combos.append((nbits, kind, ("mad", "iqrm")[(i + nbits) % 2], rng.choice([2.0, 3.0, 3.0, 5.5])))
+            combos.append((nbits, kind, ("mad", "iqrm")[(i + nbits) % 2], rng.choice([2.0, 3.0, 3.0, 5.5]), 1.0))
     if not quick:
-        combos += [(nb, k, m, rng.choice([1.5, 2.0, 3.0, 4.0, 6.0])) for _rep in range(4) for nb in DEPTHS for k in RANGE_KINDS for m in ("mad", "iqrm")]
-    for idx, (nbits, rkind, method, thr) in enumerate(combos):
+        combos += [(nb, k, m, rng.choice([1.5, 2.0, 3.0, 4.0, 6.0]), 1.0) for _rep in range(4) for nb in DEPTHS for k in RANGE_KINDS for m in ("mad", "iqrm")]
+    # further regimes (appended, so that the cases above are the same as before): infinite / integer range end points; 32-bit files in a
+    # small unit (samples * 2**-20, exact in float32: variances of order 1e-10, the masks must not depend on the unit); thresholds far from
+    # the usual ones and of integer type
+    small = 2.0 ** -20
+    for rep_ in range(1 if quick else 4):
+        combos += [(nb, "halfline", ("mad", "iqrm")[(nb + rep_) % 2], 3.0, 1.0) for nb in ((1, 8, 32) if quick else DEPTHS)]
+        combos += [(8, "intlists", "mad", 3, 1.0), (2, "intlists", "iqrm", 3.0, 1.0)]
+        combos += [(32, k, m, t, small) for k, m, t in (("inside", "mad", 3.0), ("none", "iqrm", 3.0), ("edges", "mad", 2.0), ("halfline", "iqrm", 4.0))]
+        combos += [(8, "inside", "mad", 1e-3, 1.0), (4, "none", "iqrm", 1e6, 1.0), (32, "overlap", "mad", 1e-3, small)]
+    for idx, (nbits, rkind, method, thr, amp) in enumerate(combos):
         fch1, foff = grids[idx % len(grids)] if rkind != "edges" else grids[idx % 3]
         nchans = 16 if nbits == 1 else rng.choice([12, 16, 24])
         ns = rng.randrange(24, 48)
         data, planted = synth(rng, nbits, nchans, ns)
+        if amp != 1.0:
+            data = data.astype(np.float32) * np.float32(amp)
         p = T.path(".fil")
         write_fil(p, data, nbits, fch1=fch1, foff=foff)
         ranges = make_ranges(rng, rkind, fch1, foff, nchans)
@@ -497,7 +702,7 @@ def _clean_cases(R, rng, T, FilReader, rfi, quick, corr):
         mv = rng.choice([None, None, (rng.randrange(top + 1) if nbits < 32 else rng.choice([0.0, -2.5, 11.0]))])
         gulp = rng.choice(gulps_for(ns))
         case = {"op": "clean_rfi", "nbits": nbits, "nchans": nchans, "nsamps": ns, "fch1": fch1, "foff": foff, "method": method, "threshold": thr,
-                "freq_mask": ranges, "custom": cid, "mask_value": mv, "gulp": gulp, "data": data.tolist()}
+                "freq_mask": ranges_json(ranges), "custom": cid, "mask_value": mv, "gulp": gulp, "amplitude": amp, "data": data.tolist()}
         out = T.path(".fil")
         try:
             f = FilReader(p)
@@ -528,7 +733,7 @@ def _clean_cases(R, rng, T, FilReader, rfi, quick, corr):
         ref = data.T.astype(np.float64)
         mu = ref.mean(axis=1)
         var = ref.var(axis=1)
-        if not (np.allclose(m.chan_mean, mu, rtol=1e-3, atol=1e-3) and np.allclose(m.chan_var, var, rtol=1e-3, atol=1e-3)):
+        if not (np.allclose(m.chan_mean, mu, rtol=1e-3, atol=1e-3 * amp) and np.allclose(m.chan_var, var, rtol=1e-3, atol=1e-3 * amp * amp)):
             R.fail("stats-vector", "chan_mean / chan_var of the returned mask are not the per-channel mean / variance of the file",
                    dict(case, chan_var=[float(v) for v in m.chan_var], expected_var=var.tolist()))
         with np.errstate(all="ignore"):
@@ -551,12 +756,23 @@ def _clean_cases(R, rng, T, FilReader, rfi, quick, corr):
                    dict(case, got=np.where(cust)[0].tolist(), expected=np.where(ec)[0].tolist()))
         # (5) the cleaned file
         if mv is None:
+            # whatever is masked (also everything: the default value is then undefined), the file keeps its shape, depth and axes
+            if hdr.nsamples != ns or hdr.nchans != nchans or hdr.nbits != nbits or got.shape != (nchans, ns):
+                R.fail("clean-length", "cleaned file has a different shape/depth than the input",
+                       dict(case, got_shape=list(got.shape), nsamples=int(hdr.nsamples), nbits=int(hdr.nbits)))
+            check_axes(R, "clean", hdr, f.header, case)
             if (~chan).any():
                 emv = float(np.median(mu[~chan]))
                 w = got[chan]
                 if chan.any():
                     v0 = float(w.flat[0])
                     ok = bool(np.all(w == w.flat[0])) and (abs(v0 - emv) <= 1e-3 * max(1.0, abs(emv)) if nbits == 32 else (v0 == int(v0) and abs(v0 - emv) < 1 + 1e-3))
+                    if ok and nbits == 32:          # the same relative to the unit of the data
+                        ok = abs(v0 - emv) <= 1e-3 * max(amp, abs(emv))
+                    if ok and nbits < 32:
+                        # the value is converted to the sample type as an explicit one is (apply_channel_mask: float32, then the C cast of
+                        # astype, i.e. truncation); both neighbours are accepted only when the median is within 1e-3 of an integer
+                        ok = v0 in {float(int(emv - 1e-3 * max(1.0, emv))), float(int(emv + 1e-3 * max(1.0, emv)))}
                     if not ok:
                         R.fail("clean-default-value", "masked samples are not the default mask value (median of the unmasked channel means)",
                                dict(case, expected=emv, written=sorted({float(t) for t in np.unique(w)})[:6]))
@@ -564,9 +780,10 @@ def _clean_cases(R, rng, T, FilReader, rfi, quick, corr):
                 if not np.array_equal(got[um].astype(np.float64), data.T[um].astype(np.float64)) or got.shape != (nchans, ns):
                     R.fail("clean-unmasked-changed", "a sample of an unmasked channel differs from the input (or the file length changed)", case)
         else:
-            check_cleaned(R, "clean", hdr, got, data, chan, mv, nbits, case)
+            check_cleaned(R, "clean", hdr, got, data, chan, mv, nbits, case, in_hdr=f.header)
         # correspondence input: the vectors the implementation itself used
-        if not fr and nchans <= 24 and len(corr) < (40 if quick else 200) and cid != 6:
+        if (not fr and nchans <= 24 and len(corr) < (40 if quick else 200) and cid != 6 and rkind not in RANGE_KINDS_X and amp == 1.0 and np.isfinite(thr)
+                and not model_fragile(method, (m.chan_var, m.chan_skew, m.chan_kurt))):
             fr32 = [float(x) for x in np.asarray(FilReader(p).header.chan_freqs)]
             _eu, fragile32 = o_user(fch1, foff, nchans, ranges or [])
             if not fragile32:
@@ -578,10 +795,16 @@ def _clean_cases(R, rng, T, FilReader, rfi, quick, corr):
 
 
 # ------------------------------------------------------------------------------------------------
-def _history_cases(R, rng, rfi, Header, quick, corr):
+def _history_cases(R, rng, rfi, Header, quick, corr, T=None):
     """any sequence of public operations on one RFIMask only adds channels, and chan_mask contains the components"""
     nprng = np.random.default_rng(rng.randrange(1 << 30))
-    for it in range(40 if quick else 600):
+    n_std = 40 if quick else 600
+    # further histories (after the others; not sent to the model, whose histories start from a fresh mask, keep one threshold and know the
+    # custom functions 0..5): the threshold attribute is changed between operations, the custom function returns integers, and the
+    # history starts from a mask that was loaded from a file with channels already masked that belong to none of the component masks
+    n_ext = (16 if quick else 150) if T is not None else 0
+    for it in range(n_std + n_ext):
+        ext = it >= n_std
         n = rng.choice([8, 12, 16])
         fch1, foff = rng.choice([(1500.0, -1.0), (1400.0, 0.5)])
         hdr = Header(filename="x.fil", data_type="filterbank", nchans=n, foff=foff, fch1=fch1, nbits=8, tsamp=0.001, tstart=60000.0, nsamples=64)
@@ -594,16 +817,30 @@ def _history_cases(R, rng, rfi, Header, quick, corr):
         thr = rng.choice([2.0, 3.0, 4.5])
         m = rfi.RFIMask(thr, hdr, np.zeros(n, np.float32), vecs[0], vecs[1], vecs[2], np.zeros(n, np.float32), np.zeros(n, np.float32))
         ops, trail = [], []
+        if ext and it % 2 == 1:
+            m.chan_mask = nprng.integers(0, 3, n) == 0
+            preset = m.chan_mask.copy()
+            try:
+                m = rfi.RFIMask.from_file(m.to_file(T.path(".h5")))
+            except Exception as e:  # noqa: BLE001
+                R.fail("h5-raises", f"mask file round trip raised {type(e).__name__}", {"op": "history-from-file", "nchans": n, "error": str(e)[:300]})
+                continue
+            if not np.array_equal(np.asarray(m.chan_mask), preset):
+                R.fail("h5-arrays", "array 'chan_mask' is not reproduced by RFIMask.from_file(to_file())", {"op": "history-from-file", "saved": preset.tolist(), "loaded": np.asarray(m.chan_mask).tolist()})
         prev = np.asarray(m.chan_mask).astype(bool).copy()
         fragile = False
-        nops = rng.randrange(1, 7)
+        nops = rng.randrange(1, 7) if not ext else rng.randrange(3, 9)
         # half of the histories start with a non-empty range followed by the statistics / a custom function, so that an
         # operation which replaced (instead of extended) chan_mask would be seen
         forced = [("mask", rng.choice(["inside", "edges", "whole"])), (rng.choice(["method", "funcn"]), None)] if it % 2 == 0 else []
         for j in range(max(nops, len(forced))):
-            k, rk = forced[j] if j < len(forced) else (rng.choice(["mask", "mask", "method", "funcn", "badmethod"]), None)
-            if k == "mask":
-                r = make_ranges(rng, rk or rng.choice(RANGE_KINDS[1:]), fch1, foff, n)
+            k, rk = forced[j] if j < len(forced) else (rng.choice(["mask", "mask", "method", "funcn", "badmethod"] + (["thr", "thr", "method"] if ext else [])), None)
+            if k == "thr":
+                thr = thr * rng.choice([0.5, 2.0, 4.0]) if thr < 50 else 3.0
+                m.threshold = thr
+                ops.append(("thr", thr))
+            elif k == "mask":
+                r = make_ranges(rng, rk or rng.choice(RANGE_KINDS[1:] + (RANGE_KINDS_X if ext else ())), fch1, foff, n)
                 m.apply_mask(r)
                 ops.append(("mask", r))
             elif k == "method":
@@ -613,8 +850,16 @@ def _history_cases(R, rng, rfi, Header, quick, corr):
                 for v in vecs:
                     lo, hi, fr = (o_mad if meth == "mad" else o_iqrm)(v, thr)
                     fragile = fragile or fr or not np.array_equal(lo, hi)
+                fragile = fragile or model_fragile(meth, vecs)
+                if ext:                             # the statistics mask is the rule at the threshold the mask holds NOW
+                    lo, hi, fr = o_stats(meth, thr, *vecs)
+                    st_now = np.asarray(m.stats_mask).astype(bool)
+                    if not fr and (np.any(lo & ~st_now) or np.any(st_now & ~hi)):
+                        R.fail(f"stats-mask-{meth}", "stats_mask is not the rule applied at the current threshold of the mask",
+                               {"op": "history", "nchans": n, "threshold": thr, "var": vecs[0].tolist(), "skew": vecs[1].tolist(), "kurt": vecs[2].tolist(), "ops": ops,
+                                "got": np.where(st_now)[0].tolist(), "must_flag": np.where(lo)[0].tolist(), "may_flag": np.where(hi)[0].tolist()})
             elif k == "funcn":
-                cid = rng.randrange(6)
+                cid = rng.randrange(7 if ext else 6)
                 m.apply_funcn(custom_fn(cid, n))
                 ops.append(("funcn", cid))
             else:
@@ -635,7 +880,7 @@ def _history_cases(R, rng, rfi, Header, quick, corr):
                 R.fail("covers", "chan_mask does not contain user_mask | stats_mask | custom_mask", case)
             prev = cur
         R.case(("hist", it, tuple(str(o) for o in ops)), nontrivial=prev.any(), regime="history")
-        if not fragile and len(corr) < (40 if quick else 120):
+        if not ext and not fragile and len(corr) < (40 if quick else 120):
             corr.append(dict(n=n, freqs=[float(x) for x in hdr.chan_freqs], var=vecs[0].tolist(), skew=vecs[1].tolist(), kurt=vecs[2].tolist(), thr=thr, ops=ops,
                              trail=trail, user=np.asarray(m.user_mask).astype(bool).tolist(), stats=np.asarray(m.stats_mask).astype(bool).tolist(),
                              custom=np.asarray(m.custom_mask).astype(bool).tolist()))
@@ -672,21 +917,46 @@ def _h5_cases(R, rng, T, rfi, Header, FilReader, SkyCoord, Angle, quick):
                 if float(v1) != float(v2):
                     R.fail("h5-threshold", "threshold is not reproduced by RFIMask.from_file(to_file())", dict(case, generation=gen, saved=float(v1), loaded=float(v2)))
 
-    for it in range(6 if quick else 60):
+    n_std = 6 if quick else 60
+    # further round trips (after the others): EVERY scalar field of the header differs from its default (also nifs, backend, period, accel,
+    # the depth, an ascending band), the custom mask may be an integer array, and once the file name is the default one
+    for it in range(n_std + (6 if quick else 40)):
+        ext = it >= n_std
         n = rng.choice([8, 16, 32])
         kw = {}
-        if it % 2 == 1:
+        if it % 2 == 1 or ext:
             kw = dict(coord=SkyCoord(rng.uniform(0, 360), rng.uniform(-89, 89), unit="deg"), azimuth=Angle(f"{rng.uniform(0, 359):.4f}d"),
                       zenith=Angle(f"{rng.uniform(0, 89):.4f}d"), telescope="Parkes", source="J0534+2200", signed=bool(it % 4 == 1), ibeam=3, nbeams=13,
                       dm=56.75, rawdatafile="raw.dada", frame="barycentric")
-        hdr = Header(filename="obs.fil", data_type="filterbank", nchans=n, foff=-0.5, fch1=1500.0, nbits=8, tsamp=0.000064, tstart=58543.25, nsamples=4096, **kw)
-        thr = rng.choice([3, 2.5, 4.0])
+        if not ext:
+            hdr = Header(filename="obs.fil", data_type="filterbank", nchans=n, foff=-0.5, fch1=1500.0, nbits=8, tsamp=0.000064, tstart=58543.25, nsamples=4096, **kw)
+        else:
+            foff, fch1 = rng.choice([(-0.5, 1500.0), (0.5, 1494.0), (0.25, 1495.0)])
+            kw.update(nifs=rng.choice([2, 4]), backend=rng.choice(["PDFB4", "BPSR"]), period=rng.uniform(0.001, 5.0), accel=rng.uniform(-50.0, 50.0),
+                      signed=bool(it % 2), ibeam=rng.randrange(1, 13), dm=rng.uniform(1.0, 900.0), source=rng.choice(["J0534+2200", "B1937+21 (cal)", "G"]))
+            hdr = Header(filename=rng.choice(["obs.fil", "2026-10-01_beam03.fil"]), data_type="filterbank", nchans=n, foff=foff, fch1=fch1, nbits=rng.choice(DEPTHS),
+                         tsamp=rng.choice([0.000064, 0.001, 1.0 / 3.0]), tstart=rng.choice([58543.25, 60000.0 + rng.random()]), nsamples=rng.choice([1, 4096, (1 << 31) + 5]), **kw)
+        thr = rng.choice([3, 2.5, 4.0]) if not ext else rng.choice([3, 2.5, np.float32(4.5), 1e-3, 1e6, 0.1 + 0.2])
         arrs = [nprng.normal(0, 1, n).astype(np.float32) for _ in range(6)]
         m = rfi.RFIMask(thr, hdr, *arrs)
         m.apply_mask([(1495.0, 1497.25)])
         m.apply_method(rng.choice(["mad", "iqrm"]))
-        m.apply_funcn(custom_fn(rng.randrange(6), n))
-        case = {"op": "h5", "nchans": n, "threshold": thr, "header": {k: str(v) for k, v in kw.items()}}
+        m.apply_funcn(custom_fn(rng.randrange(7 if ext else 6), n))
+        case = {"op": "h5", "nchans": n, "threshold": float(thr), "header": {k: str(v) for k, v in kw.items()}}
+        if ext and it == n_std:                         # to_file() without a name: <basename>_mask.h5 in the working directory
+            cwd = os.getcwd()
+            try:
+                os.chdir(T.dir)
+                fn0 = m.to_file()
+                want = f"{hdr.basename}_mask.h5"
+                if fn0 != want or not os.path.exists(os.path.join(T.dir, want)):
+                    R.fail("h5-default-name", "to_file() without a name does not write <basename>_mask.h5", dict(case, returned=str(fn0), expected=want))
+                else:
+                    compare(m, rfi.RFIMask.from_file(os.path.join(T.dir, want)), case, 1)
+            except Exception as e:  # noqa: BLE001
+                R.fail("h5-raises", f"mask file round trip raised {type(e).__name__}", dict(case, error=str(e)[:300]))
+            finally:
+                os.chdir(cwd)
         R.case(("h5", it), regime="h5", sample={"op": "to_file/from_file", "header_overrides": sorted(kw)} if it == 1 else None)
         p = T.path(".h5")
         try:
